@@ -129,6 +129,23 @@ def printV (q : CalcQuirks) (showQ : Q α → String) : V α → String
       left ++ " " ++ op.text ++ " " ++ right
     | _ => left ++ " " ++ op.text ++ " " ++ printV q showQ b
 
+def isIdentV : V α → Bool
+  | .ident _ => true
+  | _ => false
+
+/-- one operator applied to two evaluated operands (`Operator::eval`, then `css_fn_arg`) -/
+def combine (q : CalcQuirks) (showQ : Q α → String) (op : Op) : V α → V α → R α
+  | .num x, .num y =>
+    match foldNum op x y with
+    | .val z => .ok (.num z)
+    | .keep => .ok (.bin op (.num x) (.num y))
+    | .err => .err
+    | .unsupported => .unsupported
+  | va, vb =>
+    if q.identPlusConcat && op = .plus && (isIdentV va || isIdentV vb) then
+      .ok (.ident (printV q showQ va ++ printV q showQ vb))
+    else .ok (.bin op va vb)
+
 /-- bottom-up evaluation: SassScript evaluation of the argument + `do_eval` -/
 def evalC (q : CalcQuirks) (showQ : Q α → String) : T α → R α
   | .num x => .ok (.num x)
@@ -144,19 +161,7 @@ def evalC (q : CalcQuirks) (showQ : Q α → String) : T α → R α
     | _, .err => .err
     | .unsupported, _ => .unsupported
     | _, .unsupported => .unsupported
-    | .ok va, .ok vb =>
-      match va, vb with
-      | .num x, .num y =>
-        match foldNum op x y with
-        | .val z => .ok (.num z)
-        | .keep => .ok (.bin op va vb)
-        | .err => .err
-        | .unsupported => .unsupported
-      | _, _ =>
-        let isIdent : V α → Bool := fun v => match v with | .ident _ => true | _ => false
-        if q.identPlusConcat && op = .plus && (isIdent va || isIdent vb) then
-          .ok (.ident (printV q showQ va ++ printV q showQ vb))
-        else .ok (.bin op va vb)
+    | .ok va, .ok vb => combine q showQ op va vb
 
 /-- the declaration value: a plain number when everything folded, else `calc(…)` -/
 def calcText (q : CalcQuirks) (showQ : Q α → String) (t : T α) : String :=
